@@ -391,8 +391,8 @@ def render(stmts, rng, style="free"):
             slens[s["name"]] = n
             ln = "strand" + sp() + ("[dummy]" + sp() if s.get("dummy") else "") + s["name"] + sp() + "=" + sp() + \
                 sp().join(s["items"])
-            if suffix:
-                ln += sp() + ":" + sp() + str(n)
+            if suffix or not s["items"]:      # an empty strand is only readable with its length: `strand X =  : 0`
+                ln += (sp() if s["items"] else rng.choice([" ", "  ", " \t"])) + ":" + sp() + str(n)
         elif k == "struct":
             ln = "structure" + sp()
             if s.get("params") is not None:
@@ -540,9 +540,9 @@ def gen_doc(rng, size=None, bias="mixed"):
         its, r = [], []
         want = rng.randint(1, 5)
         for _ in range(want):
-            if sorder and rng.random() < 0.45:
+            if any(x["items"] for x in stmts_strand) and rng.random() < 0.45:
                 # the complement of something an earlier strand carries, so that helices exist
-                prev = rng.choice(stmts_strand)["items"]
+                prev = rng.choice([x for x in stmts_strand if x["items"]])["items"]
                 it = rng.choice(prev)
                 it = it[:-1] if it.endswith("*") else it + "*"
             else:
@@ -551,7 +551,12 @@ def gen_doc(rng, size=None, bias="mixed"):
                 continue
             its.append(it)
             r += reg_of(it)
-        if not its:
+        if sorder and rng.random() < 0.07:
+            # an EMPTY strand (`strand X =  : 0`: what remains of a strand all of whose domains have length 0); it takes part in
+            # structures like any other strand, with an empty segment
+            its, r = [], []
+            meta["tricks"].append("empty-strand")
+        elif not its:
             it = rng.choice([n for n in doml])
             if doml[it] > size["nt"]:
                 continue
@@ -574,6 +579,11 @@ def gen_doc(rng, size=None, bias="mixed"):
 
     # ---- structures
     def add_structure(sn, density, force_all=False):
+        if not any(strands[n] for n in sn):
+            full = [n for n in sorder if strands[n]]
+            if not full:
+                return
+            sn = list(sn) + [rng.choice(full)]     # the reader needs a non-empty structure text
         nucs = []
         for n in sn:
             nucs += strands[n]
@@ -626,6 +636,10 @@ def gen_doc(rng, size=None, bias="mixed"):
         for _ in range(rng.randint(1, 3)):
             it = rng.choice(cands)
             it = it + "*" if rng.random() < 0.4 else it
+            if rng.random() < 0.18:
+                # a region set equal to its OWN reverse complement (a palindromic site): satisfiable for even length
+                it = first[:-1] if first.endswith("*") else first + "*"
+                meta["tricks"].append("equal-to-own-complement")
             r0, r1 = reg_of(first), reg_of(it)
             ok = all(uf.consistent((a, x), (b, y), int(c != e)) for (a, x, c), (b, y, e) in zip(r0, r1))
             snapshot = None
